@@ -1,16 +1,29 @@
 #!/bin/bash
 # usage: run.sh <Cxx> <quick|thorough> [--replay file]
 # Rebuilds the harness against /repo's current working tree (hooks on: -tags verif) and runs one check.
+# VERIF_REPO=<scratch worktree> VERIF_OUT=<dir> run the same check against another tree without touching
+# /repo or /verif/evidence (used to try the checks against seeded changes).
 set -u
 cd /verif/harness || exit 2
 export GOFLAGS=-mod=mod GOPROXY=off GOSUMDB=off GOTOOLCHAIN=local GOWORK=off CGO_ENABLED=1
 export VERIF_TIER="${2:-quick}"
+BIN=/verif/bin/mcx
+MODFLAG=""
+if [ -n "${VERIF_REPO:-}" ] && [ "$VERIF_REPO" != /repo ]; then
+  : "${VERIF_OUT:?VERIF_OUT must be set together with VERIF_REPO}"
+  mkdir -p "$VERIF_OUT"
+  sed "s#=> /repo/#=> $VERIF_REPO/#" go.mod > "$VERIF_OUT/go.mod"
+  cp go.sum "$VERIF_OUT/go.sum"
+  export VERIF_MODFILE="$VERIF_OUT/go.mod"
+  MODFLAG="-modfile=$VERIF_MODFILE"
+  BIN="$VERIF_OUT/mcx"
+fi
 mkdir -p /verif/bin
-if ! go build -tags verif -o /verif/bin/mcx ./cmd/mcx 2>/verif/bin/build.log; then
+if ! go build $MODFLAG -tags verif -o "$BIN" ./cmd/mcx 2>"$BIN.build.log"; then
   # a tree that does not compile cannot be checked; this is a harness/build error, not a verdict
-  cat /verif/bin/build.log >&2
-  echo "BUILD FAILED (harness or /repo does not compile with -tags verif)" >&2
+  cat "$BIN.build.log" >&2
+  echo "BUILD FAILED (harness or the tree under test does not compile with -tags verif)" >&2
   exit 2
 fi
 cd /verif
-exec /verif/bin/mcx "$@"
+exec "$BIN" "$@"
